@@ -126,9 +126,13 @@ def one_trace(rng, case, bname, parameter=True, observed=False, via_copy=False, 
         return {"hdr": hdr, "ev": [e]}
     if model is None:
         model = gb.add(xx, tv, bvar).build_model()
+    copy_ok = True
     if via_copy:
         import copy
-        model = copy.deepcopy(model)
+        try:
+            model = copy.deepcopy(model)
+        except Exception:  # noqa: BLE001  (liesel copies models itself: interface, build_model(copy=True))
+            copy_ok = False
     xx, tv = model.vars["x"], model.vars["x_transformed"]
 
     def flags():
@@ -139,7 +143,7 @@ def one_trace(rng, case, bname, parameter=True, observed=False, via_copy=False, 
     b = bij_now(pvals)
     t0 = b.inverse(jnp.asarray(x0, jnp.float32))
     e.update({"names": ["x", "x_transformed"], "flags": flags(), "orig_value": fl(xx.value), "new_value": fl(tv.value),
-              "new_log_prob": fsum(tv.log_prob), "new_per_obs": bool(tv.dist_node.per_obs),
+              "copy_ok": copy_ok, "new_log_prob": fsum(tv.log_prob), "new_per_obs": bool(tv.dist_node.per_obs),
               "new_lp_scalar": bool(np.ndim(tv.log_prob) == 0),
               "leaves": {"x": fl(x0), "t": fl(t0), "logp_b_t": fsum(orig_dist(pvals).log_prob(b.forward(t0))),
                          "fldj_t": fsum(fldj_total(b, t0))}})
